@@ -31,6 +31,7 @@ ASSUMPTIONS = [
 MUTANTS = [
     ('pyworkers/process.py', "        self._child.join(timeout)\n        alive = self._child.is_alive()\n        if not alive:\n            self._dead = True\n        return not alive\n\n    def terminate", "        self._child.join()\n        alive = self._child.is_alive()\n        if not alive:\n            self._dead = True\n        return not alive\n\n    def terminate", 'process wait() ignores its timeout'),
     ('pyworkers/thread.py', "        alive = self._child.is_alive()\n        if not alive:\n            self._dead = True\n        return not alive\n\n    def terminate", "        alive = self._child.is_alive()\n        self._dead = True\n        return True\n\n    def terminate", 'thread wait() always claims the worker is dead'),
+    ('pyworkers/remote.py', "send_msg(self._ctrl_sock, ('terminate', (remote_timeout, force)), comment='terminate')", "send_msg(self._ctrl_sock, ('terminate', (timeout, True)), comment='terminate')", 'remote terminate always asks the server to force, with the unclamped timeout'),
     ('pyworkers/process.py', "        if not self.is_alive():\n            return True\n        else:\n            try:\n                self._ctrl_comms.parent_end.put('terminate')", "        if False:\n            return True\n        else:\n            try:\n                self._ctrl_comms.parent_end.put('terminate')", 'terminate on a dead process worker sends on the control pipe again'),
     ('pyworkers/process.py', "            timeout = max(0, deadline - time.monotonic())\n", "            pass\n", 'process wait() spends its timeout twice (once watching the pipe, once joining)'),
     ('pyworkers/remote.py', "                remote_timeout = min(remote_timeout, timeout)\n\n        if self.is_child:\n            raise ValueError('A worker cannot wait for itself')", "                remote_timeout = max(remote_timeout, timeout)\n\n        if self.is_child:\n            raise ValueError('A worker cannot wait for itself')", 'remote wait() may wait longer remotely than the caller allowed'),
@@ -291,6 +292,32 @@ def build(ex):
                                     params={'self': ('const', None), 'timeout': ('const', None), 'remote_timeout': ('const', None)}, self_class=RW,
                                     setup=remote_parent, returns='bool',
                                     ensures=[request_bounded('wait'), idempotent],
+                                    raises={'ValueError': lambda c: (c.env['remote_timeout'].e < 0) if c.env['remote_timeout'] is not NONE else z3.BoolVal(False)},
+                                    raises_only=['ValueError'],
+                                    options={'__call_hooks__': dict(common.MSG_HOOKS), 'recv_closed_check': False, 'on_block': 'end'}), var))
+    # ------------------------------------------------------------------ remote, parent side: terminate
+    def force_forwarded(c):
+        ex_ = c.ex
+        out = ex_.abs_classes['Conn'].get(ex_, c.env['ctrl'], 'out')
+        req = out[0]
+        args = Val.vitems(ValList.vl_hd(ValList.vl_tl(Val.vitems(req))))
+        second = ValList.vl_hd(ValList.vl_tl(args))
+        cmd = ValList.vl_hd(Val.vitems(req))
+        return z3.Implies(z3.Length(out) >= 1, z3.And(cmd == Val.v_str(z3.IntVal(smt.str_code('terminate'))), second == Val.v_bool(c.env['force'].e)))
+    force_forwarded.__doc__ = "the request sent to the server is ('terminate', (remote timeout, force)) with the caller's force flag"
+
+    def rterm_setup(ex_, env):
+        remote_parent(ex_, env)
+        env['force'] = ex_.interp.sym('force', 'bool')
+        env['_release_remote_ctrl'] = VBool(False)
+    for tv in timeout_variants()[1:]:
+        for rname, rfn in (('remote_timeout=None', rn), ('remote_timeout real', rv)):
+            var = (tv[0] + ', ' + rname, (lambda a, b: (lambda ex_, env: (a(ex_, env), b(ex_, env))))(tv[1], rfn))
+            lemmas.append((Contract(RW + '.terminate', lid='Lt-remote', name='C04.Lt-remote RemoteWorker.terminate (parent side): the remote terminate is bounded by the caller\'s timeout and carries the force flag',
+                                    params={'self': ('const', None), 'timeout': ('const', None), 'force': ('const', None), 'remote_timeout': ('const', None),
+                                            '_release_remote_ctrl': ('const', None)}, self_class=RW,
+                                    setup=rterm_setup, returns='bool',
+                                    ensures=[request_bounded('terminate'), force_forwarded, idempotent],
                                     raises={'ValueError': lambda c: (c.env['remote_timeout'].e < 0) if c.env['remote_timeout'] is not NONE else z3.BoolVal(False)},
                                     raises_only=['ValueError'],
                                     options={'__call_hooks__': dict(common.MSG_HOOKS), 'recv_closed_check': False, 'on_block': 'end'}), var))
